@@ -46,7 +46,8 @@ def gen_scenario(rng):
     kind = rng.choice(["gen", "write", "chunks"])
     reqs = [{"n": n, "k": kind, "w": w}]
     if rng.random() < 0.4:
-        reqs.append({"n": rng.choice([10, base + 1, 2 * sndbuf]), "k": rng.choice(["cl", "write"]), "w": base})
+        n2 = rng.choice([10, base + 1, 2 * sndbuf])
+        reqs.append({"n": n2, "k": rng.choice(["cl", "write"]), "w": max(base, n2 // 8)})
     if rng.random() < 0.15:
         reqs.insert(0, {"n": 20, "k": "cl"})
         reqs[1]["m"] = "POST"
